@@ -391,7 +391,7 @@ class Polarization(BaseState):
                     "attempted to be anniilated?"
                 )
             if operation.renormalize:
-                self.state = self.state / jnp.linalg.norm(self.state)
+                self.state = self.state / jnp.trace(self.state)
 
         C = Config()
         if C.contractions:
